@@ -184,9 +184,20 @@ def internal_sites(repo):
         ok = br.index("inQ_ . status_ != Manifold :: Error :: NoError") < br.index("if ( inP_ . IsEmpty ( ) )")
     res.append(("Boolean3::Result", ok))
     cs = norm(strip_comments(open(os.path.join(repo, "src/csg_tree.cpp")).read()))
-    res.append(("CsgLeafNode::Compose", bool(re.search(
+    # either form forwards an errored node's status as an empty leaf before anything is composed:
+    #   (pinned)  first errored node wins;  (after c3cb260b) order-independent CombineStatus over all nodes
+    compose_first = re.search(
         r"for \( auto & node : nodes \) \{ if \( node -> pImpl_ -> status_ != Manifold :: Error :: NoError \) \{ Manifold :: Impl impl ; "
-        r"impl . status_ = node -> pImpl_ -> status_ ; return ImplToLeaf \( std :: move \( impl \) \) ; \}", cs))))
+        r"impl . status_ = node -> pImpl_ -> status_ ; return ImplToLeaf \( std :: move \( impl \) \) ; \}", cs)
+    compose_min = re.search(
+        r"Manifold :: Error status = Manifold :: Error :: NoError ; for \( auto & node : nodes \) \{ status = Manifold :: Impl :: CombineStatus \( status , node -> pImpl_ -> status_ \) ; \} "
+        r"if \( status != Manifold :: Error :: NoError \) \{ Manifold :: Impl impl ; impl . status_ = status ; return ImplToLeaf \( std :: move \( impl \) \) ; \}", cs)
+    combine_ok = True
+    if compose_min:
+        ih = norm(strip_comments(open(os.path.join(repo, "src/impl.h")).read()))
+        # CombineStatus must never turn two operands of which one is errored into NoError
+        combine_ok = bool(re.search(r"static Error CombineStatus \( Error a , Error b \) \{ if \( a == Error :: NoError \) return b ; if \( b == Error :: NoError \) return a ; return a < b \? a : b ; \}", ih))
+    res.append(("CsgLeafNode::Compose", bool(compose_first or (compose_min and combine_ok))))
     mf = norm(strip_comments(open(os.path.join(repo, "src/manifold.cpp")).read()))
     res.append(("Manifold::PropagateStatus", bool(re.search(
         r"Manifold Manifold :: PropagateStatus \( Error status \) \{ auto pImpl = std :: make_shared < Impl > \( \) ; pImpl -> status_ = status ; return Manifold \( pImpl \) ; \}", mf))))
